@@ -641,8 +641,9 @@ private:
                     a = Action::Invalid;
                 if (Token::Match(tok->astParent(), "%assign%") && astIsLHS(tok))
                     a |= Action::Invalid;
-                if (inconclusiveRef && a.isModified())
-                    return Action::Inconclusive;
+                // a conditional operator refers to one of two expressions: it does not have the value of this one
+                if (inconclusiveRef)
+                    return a.isModified() ? Action::Inconclusive : Action::None;
                 return a;
             }
             if (la.isRead()) {
@@ -657,7 +658,8 @@ private:
                 return Action::Inconclusive;
             return a;
         }
-        if (isSameSymbolicValue(ref))
+        // a conditional operator refers to one of two expressions: what holds for one of them need not hold for it
+        if (!inconclusiveRef && isSameSymbolicValue(ref))
             return Action::Read | Action::SymbolicMatch;
 
         return Action::None;
